@@ -518,7 +518,7 @@ func genC17(t *rapid.T, tier string) any {
 		case 8: // unknown type
 			if len(s.Vars) > 0 {
 				j := gen.Uniform(t, "decl", len(s.Vars))
-				s.Vars[j].Type = gen.Pick(t, "badtype", []string{"int", "monetaries", "acct"})
+				s.Vars[j].Type = gen.Pick(t, "badtype", []string{"int", "monetaries", "acct", "any", "accounts"})
 				c.Edit += "unknown-type; "
 			}
 		case 9, 10: // send-all shape
